@@ -11,6 +11,21 @@ import (
 // zz_verif_c28b_test.go / zz_verif_c28c_test.go / zz_verif_c28d_test.go.
 //
 // Shape I per codec (pure functions of their arguments and of the writer's remaining capacity).
+//
+// Findings on the unchanged tree (kept as vfAssertKF, see known_findings.txt and repro/C28/frame_limits_test.go):
+//   C28-streams-blocked-limit      consumeStreamsBlockedFrame accepts Maximum Streams > 2^60
+//   C28-ncid-length-varint         consumeNewConnectionIDFrame reads the 8-bit Length as a varint (0x40 0x01 = "1")
+//   C28-keyupdate-sentinel-maxpnum updatingKeyPair.unprotect: packet number 2^62-1 collides with the minReceived sentinel
+//
+// Sensitivity (sh mut.sh <file> '<old>' '<new>' C28 --harness <h>):
+//   packet_writer.go appendStreamFrame  `typ |= streamOffBit` -> `typ |= streamLenBit`            CAUGHT (VerifC28_dataframes: STREAM round trip)
+//   packet_parser.go consumeMaxStreamsFrame `if v > maxStreamsLimit` -> `>=`                       CAUGHT (VerifC28_frames: MAX_STREAMS round trip)
+//   transport_params.go `if v > 20 {` -> `if v >= 20 {`                                            CAUGHT (VerifC28_tp_roundtrip: valid parameters are accepted)
+//   transport_params.go `p.maxUDPPayloadSize < 1200` -> `< 1199`                                   CAUGHT (VerifC28_tp_bytes: accepted max_udp_payload_size >= 1200)
+//   packet_writer.go appendAckFrame gap `... - 1)` -> `...)`                                        CAUGHT (VerifC28_ack_write: wire image)
+//   packet_parser.go consumeAckFrame `- packetNumber(gap) - 2` -> `- 1`                             CAUGHT (VerifC28_ack_parse)
+//   packet_protection.go headerKey.protect long-header mask 0x0f -> 0x1f                           see report (VerifC28_protect_long)
+//   packet_writer.go startProtectedLongHeaderPacket: space check removed                           survives (the 1200-byte limit is never tight in these harnesses; packet size accounting is C27)
 
 func init() {
 	vfRegister("VerifC28_frames", VerifC28_frames)
